@@ -12,7 +12,8 @@ SHARDS = {'quick': 4, 'thorough': 16}
 RULE = ('State machine: the same logical recordings (category from {A, AB, A_B, A_, B, BA}; JSON-native metadata with '
         'absent keys; incomplete flag True/False/absent; a label; a class-reference value) are saved to every real '
         'cassette (in-memory, file, S3 with prefixes "", "p", "pq", "p/q" in one bucket); saves on the S3 cassettes may be '
-        'cut short by a storage fault after the first or second bucket write; lookups (category, filter, '
+        'cut short by a storage fault after the first or second bucket write; a stored recording may be fetched, '
+        'annotated and saved again under its id on every cassette; lookups (category, filter, '
         'limit in {None,1..n+1}, ordered/random) through iter_recording_ids, iter_recordings_metadata and '
         'find_matching_recording_ids with skip_incomplete on/off run on each cassette. Oracle: reference filter model '
         '(pbt/refmatch.py) over the harness model of what was saved: no duplicates, only ids of that exact category '
@@ -80,6 +81,23 @@ class Interp(object):
             rec.add_metadata(md)
             cas.save_recording(rec)
             self.ids[i][rec.id] = label
+
+    def op_resave(self, op):
+        """Annotate a stored recording on every cassette: fetch it, change its metadata, save it again under the same
+        id. It stays one recording."""
+        if not self.model:
+            return
+        label = op['n'] % len(self.model)
+        cat, md = self.model[label]
+        md = dict(md)
+        md.update(op['meta'])
+        self.model[label] = (cat, md)
+        for i, cas in enumerate(self.zoo.cassettes):
+            rid = [r for r, l in self.ids[i].items() if l == label][0]
+            rec = cas.get_recording(rid)
+            rec.add_metadata(dict(op['meta']))
+            cas.save_recording(rec)
+        self.resaves = getattr(self, 'resaves', 0) + 1
 
     def op_save_fault(self, op):
         """A save on the S3 cassettes is cut short by a storage fault after its k-th bucket write (the write was
@@ -194,6 +212,7 @@ class Interp(object):
         nt = prefix_related(cats) and 0 < len(expected) < in_cat and not unspecified
         self.ctx.case(self.history, nt, classes=(
             'via:%s' % via, 'limit:%s' % ('none' if limit is None else 'set'), 'random' if rnd else 'ordered',
+            'after-resave' if getattr(self, 'resaves', 0) else 'no-resave',
             'unspecified' if unspecified else ('matches:%s' % ('none' if not expected else
                                                                   'all' if len(expected) == in_cat else 'some'))))
 
@@ -211,6 +230,11 @@ def make_machine(ctx):
               kind=st.sampled_from(['crash', 'lost']))
         def save_fault(self, cat, meta, k, kind):
             self.step({'op': 'save_fault', 'cat': cat, 'meta': meta, 'k': k, 'kind': kind})
+
+        @precondition(lambda self: self.interp.model)
+        @rule(n=st.integers(0, 40), meta=metas)
+        def resave(self, n, meta):
+            self.step({'op': 'resave', 'n': n, 'meta': meta})
 
         @rule(cat=st.sampled_from(CATEGORIES[:3]), meta=metas)
         def save_related(self, cat, meta):
